@@ -590,7 +590,9 @@ func genMeta(g *Rand, op *SOp, nslots int, fl seqFlavour) {
 		return wamp.Dict{}
 	}
 	weights := []int{3, 3, 4, 3, 3, 3, 3, 3, 3, 3, 3, 3, 3, 3, 2, 1, 1, 1, 3, 2}
-	if fl == seqC05 {
+	if fl == seqC05 || (fl == seqC11 && g.Bool()) {
+		// ends by kill, testaments: for C11 the same history runs in every realm, and what a
+		// kill in one realm leaves behind (process-wide state) shows in the others
 		weights = []int{1, 1, 1, 0, 0, 0, 0, 0, 0, 0, 0, 0, 0, 0, 4, 2, 2, 1, 6, 3}
 	}
 	switch g.Weighted(weights...) {
